@@ -40,6 +40,40 @@ Proof. intros HB. unfold BTreeInv.Inv. cbn [root]. rewrite (bounded_depth _ _ _ 
 Lemma abs_of_bounded (t : tree) np hn h : bounded h None None t -> abs_of (mkState t np hn) = abs h t.
 Proof. intros HB. unfold BTree.abs_of. cbn [root]. rewrite (bounded_depth _ _ _ _ HB). reflexivity. Qed.
 
+Lemma leaf_in_tree_sizes : forall h lo hi (t : tree) l, bounded h lo hi t -> In l (leaves V h t) -> LEAF_START + SLOT * lcount V l <= lfe l.
+Proof.
+  induction h as [|h' IH]; intros lo hi t l HB Hin; destruct t as [l0 | id kids r]; cbn in HB; try contradiction.
+  - destruct Hin as [<- | []]. apply HB.
+  - destruct HB as [_ HB]. rewrite leaves_node in Hin. unfold BTreeInv.kleaves in Hin. apply in_app_or in Hin as [Hin | Hin].
+    + apply in_flat_map in Hin as (sc & Hsc & Hl). revert lo HB. induction kids as [|x rest IHk]; intros lo HB; [destruct Hsc|].
+      destruct HB as (_ & _ & H3 & H4). destruct Hsc as [<- | Hsc]; [eapply IH; eassumption | eapply IHk; eassumption].
+    + destruct (kids_bounded_right_c28 V _ _ _ _ _ HB) as (lo' & Hr). eapply IH; eassumption.
+Qed.
+
+(* a key greater than a key stored in the rightmost leaf is routed to the rightmost leaf *)
+Lemma rm_route_above : forall h lo hi (t : tree) k (c : entry), bounded h lo hi t ->
+  In c (lcells (last_leaf V t)) -> klt (fst c) k -> rm_route V h t k = true.
+Proof.
+  induction h as [|h' IH]; intros lo hi t k c HB Hc Hk; destruct t as [l0 | id kids r]; cbn in HB; try contradiction; [reflexivity|].
+  destruct HB as [_ HB]. cbn [rm_route last_leaf] in *.
+  assert (Hr : exists lo', bounded h' lo' hi r /\ (forall sc, In sc kids -> lo_ok (Some (fst sc)) (fst c))).
+  { clear IH Hk. revert lo HB. induction kids as [|x rest IHk]; intros lo HB.
+    - exists lo. split; [exact HB | intros sc []].
+    - destruct HB as (H1 & H2 & H3 & H4). destruct (IHk _ H4) as (lo' & Hb & Hall). exists lo'. split; [exact Hb|].
+      intros sc [<- | Hsc]; [|apply Hall; exact Hsc].
+      (* the rightmost leaf lies right of separator x *)
+      assert (Hin : In c (kabs h' rest r)).
+      { unfold BTreeInv.kabs. apply in_flat_map. exists (last_leaf V r). split; [|exact Hc].
+        destruct (leaves_last_c28 V vlen _ _ _ _ Hb) as (pre & Hp). unfold BTreeInv.kleaves. rewrite Hp. apply in_or_app. right. apply in_or_app. right. left. reflexivity. }
+      pose proof (kabs_in_bounds V vlen h' (abs_in_bounds V vlen h') _ _ _ _ H4) as B. unfold BTreeInv.cells_in in B. rewrite Forall_forall in B.
+      exact (proj1 (B _ Hin)). }
+  destruct Hr as (lo' & Hb & Hall). apply andb_true_iff. split; [|eapply IH; eassumption].
+  apply Nat.eqb_eq. clear - Hall Hk. induction kids as [|x rest IHk]; [reflexivity|]. cbn [cidx length].
+  assert (E : kltb k (fst x) = false).
+  { apply kltb_false. intros H. specialize (Hall x (or_introl eq_refl)). cbn in Hall. apply Hall. eapply klt_trans; eassumption. }
+  rewrite E. f_equal. apply IHk. intros sc Hsc. apply Hall. right. exact Hsc.
+Qed.
+
 (* ---------------------------------------------------------------- fast path *)
 Lemma last_lt_all (cs : list entry) lk k : ssorted V cs -> last (map (fun c : entry => Some (fst c)) cs) None = Some lk ->
   klt lk k -> forall x, In x cs -> klt (fst x) k.
@@ -94,76 +128,84 @@ Definition dup_out (m : imode) : out := match m with MIine => RUniq false | _ =>
 Definition ins_post (m : imode) (s : state) (e : entry) (res : state * out * Z) : Prop :=
   let s' := fst (fst res) in let r := snd (fst res) in
   Inv s' /\ ((In (fst e) (keys (abs_of s)) /\ abs_of s' = abs_of s /\ r = dup_out m)
-             \/ (Permutation (abs_of s') (e :: abs_of s) /\ r = ok_out m)).
+             \/ (Permutation (abs_of s') (e :: abs_of s) /\ r = ok_out m)
+             \/ (abs_of s' = abs_of s /\ r = RErr /\ ~ In (fst e) (keys (abs_of s)) /\ exists c, In c (e :: abs_of s) /\ ~ half_okP V vlen c)).
 
-Lemma err_flag_nonzero er : err_flag er <> 0.
-Proof. destruct er; cbv; discriminate. Qed.
+(* the only irregular outcome left: the zero-separator panic (finding F-C28-8) *)
+Definition ins_res_ok (m : imode) (s : state) (e : entry) (res : state * out * Z) : Prop :=
+  (snd res = F_ZSEP /\ snd (fst res) = RPanic) \/ (snd res = 0 /\ ins_post m s e res).
 
 Lemma slow_insert_ok m (s : state) (e : entry) :
-  Inv s -> (m = MAppend -> forall x, In x (abs_of s) -> klt (fst x) (fst e)) ->
-  snd (slow_insert V vlen m s e) = 0 -> ins_post m s e (slow_insert V vlen m s e).
+  Inv s -> cell_fits V vlen e -> (m = MAppend -> forall x, In x (abs_of s) -> klt (fst x) (fst e)) ->
+  ins_res_ok m s e (slow_insert V vlen m s e).
 Proof.
-  intros HI Happ Hf. unfold slow_insert in *. set (h := depth V (root s)) in *.
+  intros HI Hfit Happ. unfold slow_insert, ins_res_ok. set (h := depth V (root s)) in *.
   assert (HB : bounded h None None (root s)) by exact HI.
-  assert (Hrisk : sepdup_risk V vlen s e = false).
-  { destruct (sepdup_risk V vlen s e); [|reflexivity]. exfalso.
-    destruct (ins V vlen h m true (root s) e (npages s)) as [t np | L sp R np | np | er]; cbn [snd] in Hf.
-    - discriminate.
-    - destruct (build_kids V [] [(sp, L)]); cbn [snd] in Hf; [exact (err_flag_nonzero _ Hf) | discriminate].
-    - discriminate.
-    - exact (err_flag_nonzero _ Hf). }
-  rewrite Hrisk in *.
-  pose proof (ins_ok V vlen vlen_nonneg h m true (root s) e (npages s) None None HB I I Happ Hrisk) as Hok.
-  destruct (ins V vlen h m true (root s) e (npages s)) as [t np | L sp R np | np | er]; cbn [BTreeLeafIns.ires_ok] in Hok.
-  - destruct Hok as [Hb Hp]. unfold ins_post. cbn [fst snd]. split; [eapply Inv_of_bounded; exact Hb|]. right.
+  pose proof (ins_ok V vlen vlen_nonneg h m true (root s) e (npages s) None None HB I I Hfit Happ) as Hok.
+  destruct (ins V vlen h m true (root s) e (npages s)) as [t np | L sp R np | np | np | er]; cbn [BTreeLeafIns.ires_ok] in Hok.
+  - destruct Hok as [Hb Hp]. right. cbn [fst snd]. split; [reflexivity|]. unfold ins_post. cbn [fst snd].
+    split; [eapply Inv_of_bounded; exact Hb|]. right; left.
     split; [|destruct m; reflexivity]. rewrite (abs_of_bounded _ _ _ _ Hb). exact Hp.
-  - destruct Hok as (HL & HR & _ & _ & Hp). cbn [build_kids ipos] in *.
-    destruct (Z.leb_spec (klen (fst (sp, L)) + ISLOT) (ifree V [])) as [Hroom|]; cbn [snd] in Hf; [|exfalso; exact (err_flag_nonzero _ Hf)].
+  - destruct Hok as (HL & HR & _ & _ & Hsf & Hp). cbn [build_kids ipos].
+    unfold sep_fits in Hsf. destruct (Z.leb_spec (klen (fst (sp, L)) + ISLOT) (ifree V [])) as [Hroom | Hc].
+    2:{ exfalso. cbn [fst] in Hc. unfold ifree in Hc. cbn [map] in Hc. unfold sumz in Hc. cbn [fold_right] in Hc. lia. }
     cbn [fst] in Hroom. unfold insert_at. cbn [firstn skipn app].
     assert (Hb : bounded (S h) None None (Node np [(sp, L)] R)).
     { cbn [BTreeInv.bounded BTreeInv.kids_bounded fst snd]. split.
       - rewrite ifree_cons. cbn [fst]. unfold BTree.kid in *. lia.
       - repeat split; assumption. }
-    unfold ins_post. cbn [fst snd]. split; [eapply Inv_of_bounded; exact Hb|]. right.
+    right. cbn [fst snd]. split; [reflexivity|]. unfold ins_post. cbn [fst snd]. split; [eapply Inv_of_bounded; exact Hb|]. right; left.
     split; [|destruct m; reflexivity]. rewrite (abs_of_bounded _ _ _ _ Hb), abs_node, kabs_cons, kabs_nil. cbn [snd]. exact Hp.
-  - unfold ins_post. cbn [fst snd]. split; [exact HI|]. left. split; [exact Hok|]. split; [reflexivity | destruct m; reflexivity].
-  - exfalso. cbn [snd] in Hf. exact (err_flag_nonzero _ Hf).
+  - right. cbn [fst snd]. split; [reflexivity|]. unfold ins_post. cbn [fst snd]. split; [exact HI|]. left.
+    split; [exact Hok|]. split; [reflexivity | destruct m; reflexivity].
+  - right. cbn [fst snd]. split; [reflexivity|]. unfold ins_post. cbn [fst snd]. split; [exact HI|]. right; right.
+    split; [reflexivity|]. split; [reflexivity | exact Hok].
+  - left. cbn [fst snd]. rewrite Hok. split; reflexivity.
 Qed.
 
 Lemma op_insert_ok m (s : state) (e : entry) :
-  Inv s -> (m = MAppend -> forall x, In x (abs_of s) -> klt (fst x) (fst e)) ->
-  snd (op_insert V vlen m s e) = 0 -> ins_post m s e (op_insert V vlen m s e).
+  Inv s -> cell_fits V vlen e -> (m = MAppend -> forall x, In x (abs_of s) -> klt (fst x) (fst e)) ->
+  ins_res_ok m s e (op_insert V vlen m s e).
 Proof.
-  intros HI Happ Hf. unfold op_insert in *.
+  intros HI Hfit Happ. unfold op_insert.
   destruct (match m with MIine => None | _ => fastpath V vlen s e end) as [[er | s'] |] eqn:Efp.
-  - exfalso. cbn [snd] in Hf. exact (err_flag_nonzero _ Hf).
-  - cbn [snd] in Hf. destruct (rm_route V (depth V (root s)) (root s) (fst e)) eqn:Erm; [|discriminate].
-    assert (Hfast : fastpath V vlen s e = Some (inr s')) by (destruct m; [exact Efp | discriminate | exact Efp]).
+  3:{ apply slow_insert_ok; assumption. }
+  - (* the guard of the hinted leaf cannot fail *)
+    exfalso. assert (Hfast : fastpath V vlen s e = Some (inl er)) by (destruct m; [exact Efp | discriminate | exact Efp]).
+    unfold fastpath in Hfast. destruct (hint s) as [p|]; [|discriminate].
+    destruct ((p <? 0) || (npages s <=? p)); [discriminate|].
+    destruct (negb (lid (last_leaf V (root s)) =? p)); [discriminate|].
+    destruct (last _ None) as [lk|]; [|discriminate]. destruct (negb (kltb lk (fst e))); [discriminate|].
+    assert (HB : bounded (depth V (root s)) None None (root s)) by exact HI.
+    destruct (leaves_last_c28 V vlen _ _ _ _ HB) as (pre & Hp).
+    assert (Hg : lguard V (last_leaf V (root s)) = true).
+    { unfold lguard, lfstart. apply Z.leb_le. eapply (leaf_in_tree_sizes (depth V (root s)) None None (root s)); [exact HB|].
+      rewrite Hp. apply in_or_app. right. left. reflexivity. }
+    rewrite Hg in Hfast. cbn [negb] in Hfast. destruct (_ <? _); discriminate.
+  - assert (Hfast : fastpath V vlen s e = Some (inr s')) by (destruct m; [exact Efp | discriminate | exact Efp]).
     assert (Hm : ok_out m = RUnit) by (destruct m; [reflexivity | discriminate | reflexivity]).
     clear Efp. unfold fastpath in Hfast. destruct (hint s) as [p|]; [|discriminate].
     destruct ((p <? 0) || (npages s <=? p)); [discriminate|].
     destruct (negb (lid (last_leaf V (root s)) =? p)); [discriminate|].
     set (l := last_leaf V (root s)) in *.
-    destruct (last (map (fun c : entry => Some (fst c)) (lcells l)) None) as [lk|] eqn:El.
-    + destruct (kltb lk (fst e)) eqn:Ek; cbn [negb] in Hfast; [|discriminate].
-      destruct (negb (lguard V l)); [discriminate|].
-      destruct (Z.ltb_spec (lfree V l) (csize e + SLOT)) as [|Hroom]; [discriminate|]. injection Hfast as <-.
-      assert (HB : bounded (depth V (root s)) None None (root s)) by exact HI.
-      assert (Hs : ssorted V (lcells l)).
-      { destruct (leaves_last_c28 V vlen _ _ _ _ HB) as (pre & Hp). eapply (flat_sorted_each_c28 V); [exact (abs_sorted V vlen _ _ _ _ HB)|].
-        rewrite Hp. apply in_or_app. right. left. reflexivity. }
-      apply kltb_true in Ek.
-      destruct (fast_ok _ None None (root s) e HB Erm I I (last_lt_all _ _ _ Hs El Ek) Hroom) as [H1 H2].
-      unfold ins_post. cbn [fst snd]. split; [eapply Inv_of_bounded; exact H1|]. right. split; [|symmetry; exact Hm].
-      rewrite (abs_of_bounded _ _ _ _ H1). exact H2.
-    + cbn [negb] in Hfast. destruct (negb (lguard V l)); [discriminate|].
-      destruct (Z.ltb_spec (lfree V l) (csize e + SLOT)) as [|Hroom]; [discriminate|]. injection Hfast as <-.
-      assert (HB : bounded (depth V (root s)) None None (root s)) by exact HI.
-      assert (Hall : forall x, In x (lcells l) -> klt (fst x) (fst e)) by (rewrite (last_none_nil _ El); intros x []).
-      destruct (fast_ok _ None None (root s) e HB Erm I I Hall Hroom) as [H1 H2].
-      unfold ins_post. cbn [fst snd]. split; [eapply Inv_of_bounded; exact H1|]. right. split; [|symmetry; exact Hm].
-      rewrite (abs_of_bounded _ _ _ _ H1). exact H2.
-  - apply slow_insert_ok; assumption.
+    destruct (last (map (fun c : entry => Some (fst c)) (lcells l)) None) as [lk|] eqn:El; [|discriminate].
+    destruct (kltb lk (fst e)) eqn:Ek; cbn [negb] in Hfast; [|discriminate].
+    destruct (negb (lguard V l)); [discriminate|].
+    destruct (Z.ltb_spec (lfree V l) (csize e + SLOT)) as [|Hroom]; [discriminate|]. injection Hfast as <-.
+    assert (HB : bounded (depth V (root s)) None None (root s)) by exact HI.
+    assert (Hs : ssorted V (lcells l)).
+    { destruct (leaves_last_c28 V vlen _ _ _ _ HB) as (pre & Hp). eapply (flat_sorted_each_c28 V); [exact (abs_sorted V vlen _ _ _ _ HB)|].
+      rewrite Hp. apply in_or_app. right. left. reflexivity. }
+    apply kltb_true in Ek.
+    assert (Hall : forall x, In x (lcells l) -> klt (fst x) (fst e)) by (exact (last_lt_all _ _ _ Hs El Ek)).
+    assert (Hrm : rm_route V (depth V (root s)) (root s) (fst e) = true).
+    { (* a key above the last key of the non-empty rightmost leaf routes to that leaf *)
+      destruct (lcells l) as [|c0 cs0] eqn:Ec; [discriminate|].
+      apply (rm_route_above (depth V (root s)) None None (root s) (fst e) c0 HB); [unfold l in Ec; rewrite Ec; left; reflexivity|].
+      apply Hall. left. reflexivity. }
+    destruct (fast_ok _ None None (root s) e HB Hrm I I Hall Hroom) as [H1 H2].
+    right. cbn [fst snd]. split; [reflexivity|]. unfold ins_post. cbn [fst snd]. split; [eapply Inv_of_bounded; exact H1|]. right; left.
+    split; [|symmetry; exact Hm]. rewrite (abs_of_bounded _ _ _ _ H1). exact H2.
 Qed.
 
 End T.
